@@ -118,18 +118,29 @@ def _rate_shape(name, layout):
         rxn, d = build_reaction(v, "r", layout, kk)
         r = v.call(rxn.rate, conc, substance_keys=subst)
         srat = kk * spec_cp(d, conc)
-        v.prove("domain", list(r.keys()) == subst)
+        # one entry per requested substance; the ORDER of the entries in the returned dict is not part of the property
+        v.prove("domain", set(r.keys()) == set(subst))
         v.prove("value", SP.conj([v.eq(r[k], spec_net(d, k) * srat) for k in subst]))
         v.prove("spectator_zero", v.eq(r["E"], 0))
-        # default substance keys: exactly the species of the reaction
+        # default substance keys: every species of the reaction has its entry; a further entry (a substance on neither side) is
+        # allowed by the property only with the value zero
         r2 = v.call(rxn.rate, conc)
         own = set(d[0]) | set(d[1]) | set(d[2]) | set(d[3])
-        v.prove("default_keys", set(r2.keys()) == own)
+        v.prove("default_keys", own <= set(r2.keys()) and SP.conj([v.eq(r2[k], 0) for k in sorted(set(r2.keys()) - own)]))
         v.prove("default_value", SP.conj([v.eq(r2[k], spec_net(d, k) * srat) for k in own]))
         # string parameter -> looked up in variables
         rxn3, d3 = build_reaction(v, "r", layout, "kf")
         r3 = v.call(rxn3.rate, dict(conc, kf=kk), substance_keys=subst)
         v.prove("named_param", SP.conj([v.eq(r3[k], spec_net(d, k) * srat) for k in subst]))
+        # 'inactive reactants never enter the concentration product', nor do products or spectators: variables that hold ONLY the
+        # active reactants' concentrations are enough (nothing else may be looked up)
+        r4 = v.call(rxn.rate, {k: conc[k] for k in d[0]}, substance_keys=subst)
+        v.prove("only_active_reactants_are_looked_up", set(r4.keys()) == set(subst) and SP.conj([v.eq(r4[k], spec_net(d, k) * srat) for k in subst]))
+        # argument ratex: a mass-action expression given by the caller replaces the reaction's own k (here k2), nothing else changes
+        from chempy.kinetics.rates import MassAction
+        k2 = v.real("k_ratex", lo=0, hi=9)
+        r5 = v.call(rxn.rate, conc, substance_keys=subst, ratex=MassAction([k2]))
+        v.prove("ratex_replaces_the_rate_constant", set(r5.keys()) == set(subst) and SP.conj([v.eq(r5[k], spec_net(d, k) * k2 * spec_cp(d, conc)) for k in subst]))
     return _
 
 
@@ -173,6 +184,20 @@ def _rsys_shape(name, layouts):
         var = dict(conc, fr=F, **{"fc_" + k: feed[k] for k in subst})
         r3 = v.call(rsys.rates, var, cstr_fr_fc=("fr", {k: "fc_" + k for k in subst}))
         v.prove("cstr_feed_terms", SP.conj([v.eq(r3[k], spec[k] + F * (feed[k] - conc[k])) for k in subst]))
+        # only concentrations of active reactants (of some reaction) are needed: inactive reactants, products and spectators are never looked up
+        needed = {k: conc[k] for k in subst if any(k in d[0] for d in ds)}
+        r4 = v.call(rsys.rates, needed)
+        v.prove("only_active_reactants_are_looked_up", set(r4.keys()) == set(subst) and SP.conj([v.eq(r4[k], spec[k]) for k in subst]))
+        # argument ratexs (one entry per reaction): None keeps the reaction's own rate expression; a mass-action expression replaces the
+        # k of THAT reaction only
+        r5 = v.call(rsys.rates, conc, ratexs=[None] * len(rxns))
+        v.prove("ratexs_all_None_is_the_default", set(r5.keys()) == set(subst) and SP.conj([v.eq(r5[k], spec[k]) for k in subst]))
+        from chempy.kinetics.rates import MassAction
+        k_new = v.real("k_ratex", lo=0, hi=9)
+        last = len(rxns) - 1
+        spec6 = {k: sum(spec_net(d, k) * (k_new if i == last else kk) * spec_cp(d, conc) for i, (d, kk) in enumerate(zip(ds, ks))) for k in subst}
+        r6 = v.call(rsys.rates, conc, ratexs=[None] * last + [MassAction([k_new])])
+        v.prove("ratexs_entry_replaces_the_constant_of_its_reaction", set(r6.keys()) == set(subst) and SP.conj([v.eq(r6[k], spec6[k]) for k in subst]))
     return _
 
 
@@ -197,7 +222,12 @@ def _array_shape(name, layouts):
             rxns.append(rxn); ds.append(d); ks.append(kk)
         rsys = ReactionSystem(rxns, [Substance(k) for k in subst], checks=())
         rates = list(v.call(law_of_mass_action_rates, conc, rsys))
-        v.prove("law_of_mass_action", SP.conj([v.eq(r, kk * spec_cp(d, cd)) for r, kk, d in zip(rates, ks, ds)]))
+        # exactly one rate per reaction, in the order of the reactions (zip alone would hide a generator that stops early)
+        v.prove("law_of_mass_action", len(rates) == len(ds) and SP.conj([v.eq(r, kk * spec_cp(d, cd)) for r, kk, d in zip(rates, ks, ds)]))
+        # entries of the concentration vector that belong to no active reactant are never touched (inactive reactants, products, spectators)
+        sparse = [c if any(k in d[0] for d in ds) else None for k, c in zip(subst, conc)]
+        rates_sp = list(v.call(law_of_mass_action_rates, sparse, rsys))
+        v.prove("law_of_mass_action.only_active_reactants_are_read", len(rates_sp) == len(ds) and SP.conj([v.eq(r, kk * spec_cp(d, cd)) for r, kk, d in zip(rates_sp, ks, ds)]))
         f = v.call(dCdt_list, rsys, rates)
         v.prove("dCdt_list", SP.conj([v.eq(f[i], sum(spec_net(d, k) * kk * spec_cp(d, cd) for d, kk in zip(ds, ks))) for i, k in enumerate(subst)]))
         # dCdt_list weights ANY rate vector with the net stoichiometry (one entry per substance, in substance order)
@@ -212,11 +242,11 @@ def _array_shape(name, layouts):
         other = v.real("unrelated", lo=-9, hi=9)
         for label, var in (("empty_variables", {}), ("unrelated_variable", {"T": other}), ("variable_named_like_a_substance", {"A": other, "T": other})):
             rates_ma = list(v.call(law_of_mass_action_rates, conc, rsys_ma, var))
-            v.prove("law_of_mass_action.MassAction_param." + label, SP.conj([v.eq(r, kk * spec_cp(d, cd)) for r, kk, d in zip(rates_ma, ks, ds)]))
+            v.prove("law_of_mass_action.MassAction_param." + label, len(rates_ma) == len(ds) and SP.conj([v.eq(r, kk * spec_cp(d, cd)) for r, kk, d in zip(rates_ma, ks, ds)]))
         ns = v.call(rsys.net_stoichs)
-        v.prove("net_stoichs_matrix", SP.conj([v.eq(ns[ri, si], spec_net(d, k)) for ri, d in enumerate(ds) for si, k in enumerate(subst)]))
+        v.prove("net_stoichs_matrix", ns.shape == (len(ds), len(subst)) and SP.conj([v.eq(ns[ri, si], spec_net(d, k)) for ri, d in enumerate(ds) for si, k in enumerate(subst)]))
         ar = v.call(rsys.active_reac_stoichs)
-        v.prove("active_reac_stoichs_matrix", SP.conj([v.eq(ar[ri, si], d[0].get(k, 0)) for ri, d in enumerate(ds) for si, k in enumerate(subst)]))
+        v.prove("active_reac_stoichs_matrix", ar.shape == (len(ds), len(subst)) and SP.conj([v.eq(ar[ri, si], d[0].get(k, 0)) for ri, d in enumerate(ds) for si, k in enumerate(subst)]))
         # the other three matrices and a caller-chosen subset / order of keys (d = [active reac, active prod, inactive reac, inactive prod])
         for label, meth, entry in (("all_reac", rsys.all_reac_stoichs, lambda d, k: d[0].get(k, 0) + d[2].get(k, 0)), ("all_prod", rsys.all_prod_stoichs, lambda d, k: d[1].get(k, 0) + d[3].get(k, 0)),
                                    ("active_prod", rsys.active_prod_stoichs, lambda d, k: d[1].get(k, 0))):
@@ -298,6 +328,11 @@ def _(v):
     r3 = v.call(rsys.rates, dict(conc, fr=F, **{"fc_" + k: feed[k] for k in subst}), cstr_fr_fc=("fr", {k: "fc_" + k for k in subst}))
     v.prove("pure_mixing_tank", SP.conj([v.eq(r3[k], F * (feed[k] - conc[k])) for k in subst]))
     v.prove("array_form", list(v.call(dCdt_list, rsys, [])) == [0, 0])
+    # the stoichiometry matrix of no reactions still has one column per substance (dCdt_list never indexes it when there is no reaction)
+    shp = lambda m: tuple(getattr(m, "shape", ()))
+    v.prove("stoichiometry_matrices_have_no_rows_and_one_column_per_substance",
+            all(shp(v.call(getattr(rsys, a))) == (0, 2) for a in ("net_stoichs", "all_reac_stoichs", "all_prod_stoichs", "active_reac_stoichs", "active_prod_stoichs"))
+            and shp(v.call(rsys.net_stoichs, ["A"])) == (0, 1))
 
 
 @harness("C03", "array_valued_concentrations", functions=[CH + ":Reaction.rate", RS + ":ReactionSystem.rates", "chempy.kinetics.rates:MassAction.active_conc_prod"], kind="data")
@@ -327,7 +362,25 @@ def _(v):
         rq = prove_pure(v, "quantities", rq_sys.rates, mq, materialise=lambda d: {k: float(to_unitless(x, u.molar / u.second)) for k, x in d.items()})
         v.prove("quantities.values", deep_equal(rq, {"A": -2.0, "B": 2.0 - 6.0, "C": 2.0, "D": 6.0}), detail=repr(rq))
     except ImportError:
-        pass
+        return
+    # quantities in different but compatible units: the SECOND factor of the concentration product (3000 mol/m3 = 3 M), two rate constants
+    # in different time units (30/min = 0.5/s) summed for one substance, and a feed term with units. Hand values, in M/s.
+    M_s = u.molar / u.second
+
+    def in_M_per_s(name, thunk, want):
+        try:
+            got = {k: float(to_unitless(x, M_s)) for k, x in thunk().items()}
+            v.prove(name, set(got) == set(want) and all(abs(got[k] - want[k]) <= 1e-12 * max(1.0, abs(want[k])) for k in want), detail="%r want %r" % (got, want))
+        except Exception as e:
+            v.prove(name, False, detail="%s: %s" % (type(e).__name__, e))
+    in_M_per_s("quantities.second_factor_in_a_compatible_unit",
+               lambda: Reaction({"A": 1, "B": 1}, {"C": 1}, 2.0 / u.molar / u.second).rate({"A": 2.0 * u.molar, "B": 3000.0 * u.mol / u.m3, "C": 0.0 * u.molar}),
+               {"A": -12.0, "B": -12.0, "C": 12.0})            # 2 * 2 * 3
+    two_k = ReactionSystem([Reaction({"A": 1}, {"B": 1}, 2.0 / u.second), Reaction({"B": 1}, {"A": 1}, 30.0 / u.minute)], [Substance(k) for k in "AB"], checks=())
+    in_M_per_s("quantities.rate_constants_in_different_time_units", lambda: two_k.rates({"A": 1.0 * u.molar, "B": 2.0 * u.molar}), {"A": -2.0 + 1.0, "B": 2.0 - 1.0})
+    in_M_per_s("quantities.feed_terms_with_units",
+               lambda: two_k.rates({"A": 1.0 * u.molar, "B": 2.0 * u.molar, "fr": 0.5 / u.second, "fa": 3.0 * u.molar, "fb": 6000.0 * u.mol / u.m3}, cstr_fr_fc=("fr", {"A": "fa", "B": "fb"})),
+               {"A": -1.0 + 0.5 * (3.0 - 1.0), "B": 1.0 + 0.5 * (6.0 - 2.0)})
 
 
 @harness("C03", "fractional_coefficients_in_the_array_forms", functions=[RS + ":ReactionSystem._stoichs", RS + ":ReactionSystem.net_stoichs", RS + ":ReactionSystem.all_reac_stoichs", RS + ":ReactionSystem.all_prod_stoichs",
@@ -369,15 +422,116 @@ def _(v):
     c = {"A": 5, "B": 7, "C": 11, "fr": 13, "fA": 17, "fB": 19, "fC": 23}
     r1, r2 = 2 * 5, 3 * 7 * 11 ** 2
     full = {"A": -r1 + r2 + 13 * (17 - 5), "B": r1 - r2 + 13 * (19 - 7), "C": r1 - 2 * r2 + 13 * (23 - 11)}
-    got_all = rsys.rates(c, cstr_fr_fc=("fr", {"A": "fA", "B": "fB", "C": "fC"}))
-    v.prove("all_substances", got_all == full, detail=repr(got_all))
-    sub = rsys.rates(c, substance_keys=["A", "B"], cstr_fr_fc=("fr", {"A": "fA", "B": "fB"}))
-    v.prove("subset_with_matching_feed", sub == {k: full[k] for k in "AB"}, detail=repr(sub))
-    partial = rsys.rates(c, cstr_fr_fc=("fr", {"B": "fB"}))
-    v.prove("feed_for_one_substance_only", partial == {"A": -r1 + r2, "B": full["B"], "C": r1 - 2 * r2}, detail=repr(partial))
+
+    def attempt(thunk):
+        """(value, None) or (None, 'ExceptionType: message') - an exception of the code under test becomes a failed obligation, not a checker error"""
+        try:
+            return thunk(), None
+        except Exception as e:
+            return None, "%s: %s" % (type(e).__name__, e)
+    got_all, err = attempt(lambda: rsys.rates(c, cstr_fr_fc=("fr", {"A": "fA", "B": "fB", "C": "fC"})))
+    v.prove("all_substances", err is None and got_all == full, detail=err or repr(got_all))
+    matching = lambda: rsys.rates(c, substance_keys=["A", "B"], cstr_fr_fc=("fr", {"A": "fA", "B": "fB"}))
+    sub, err = attempt(matching)
+    v.prove("subset_with_matching_feed", err is None and sub == {k: full[k] for k in "AB"}, detail=err or repr(sub))
+    partial, err = attempt(lambda: rsys.rates(c, cstr_fr_fc=("fr", {"B": "fB"})))
+    v.prove("feed_for_one_substance_only", err is None and partial == {"A": -r1 + r2, "B": full["B"], "C": r1 - 2 * r2}, detail=err or repr(partial))
+    # feed map wider than the requested keys: the correct answer (complete rates only) or a refusal with ANY exception type (KeyError today; a
+    # deliberate ValueError would be as good). That the refusal is caused by the extra entry 'C' and by nothing else (say a mistyped lookup of
+    # 'fr') follows from the same call with the matching map succeeding on the same object and variables - before (above) and again afterwards.
+    more, err = attempt(lambda: rsys.rates(c, substance_keys=["A", "B"], cstr_fr_fc=("fr", {"A": "fA", "B": "fB", "C": "fC"})))
+    again, err2 = attempt(matching)
+    matching_ok = err2 is None and again == {k: full[k] for k in "AB"}
+    if err is None:
+        ok, det = set(more) >= {"A", "B"} and all(k in full and more[k] == full[k] for k in more), repr(more)
+    else:
+        ok, det = True, "refused (%s)" % err
+    v.prove("feed_map_wider_than_the_requested_keys", ok and matching_ok, detail=det + ("" if matching_ok else "; afterwards the matching feed map gave %s" % (err2 or repr(again))))
+
+
+def _attempt(thunk):
+    """(value, None) or (None, 'ExceptionType: message'): in a data harness an exception of the code under test is a failed obligation"""
     try:
-        more = rsys.rates(c, substance_keys=["A", "B"], cstr_fr_fc=("fr", {"A": "fA", "B": "fB", "C": "fC"}))
-        ok, det = all(more[k] == full[k] for k in more) and set(more) >= {"A", "B"}, repr(more)
-    except KeyError:
-        ok, det = True, "refused"
-    v.prove("feed_map_wider_than_the_requested_keys", ok, detail=det)
+        return thunk(), None
+    except Exception as e:
+        return None, "%s: %s" % (type(e).__name__, e)
+
+
+@harness("C03", "substance_keys_differ_from_substance_names", functions=[RS + ":ReactionSystem.rates", RS + ":ReactionSystem._stoichs", RS + ":ReactionSystem.as_substance_index",
+                                                                   "chempy.kinetics.ode:law_of_mass_action_rates", "chempy.kinetics.ode:dCdt_list"], kind="data")
+def _(v):
+    """reactions, variables and the concentration vector go by the KEYS of the system's substances, never by Substance.name: here every name
+    differs from its key and the spectator's NAME equals another substance's KEY. 2 a -> b with k = 3 at a = 2: rate 3 * 2**2 = 12, so
+    b: +12, a: -24, c: 0 (vector order b, a, c)"""
+    from collections import OrderedDict
+    from chempy.chemistry import Reaction, Substance
+    from chempy.reactionsystem import ReactionSystem
+    from chempy.kinetics.ode import dCdt_list, law_of_mass_action_rates
+    rs, err = _attempt(lambda: ReactionSystem([Reaction({"a": 2}, {"b": 1}, 3.0)], OrderedDict([("b", Substance("Beta")), ("a", Substance("Alpha")), ("c", Substance("a"))]), checks=()))
+    if err:
+        v.prove("system_is_built", False, detail=err)
+        return
+    r, err = _attempt(lambda: rs.rates({"a": 2.0, "b": 1.0, "c": 7.0}))
+    v.prove("dict_form", err is None and r == {"b": 12.0, "a": -24.0, "c": 0.0}, detail=err or repr(r))
+    lr, err = _attempt(lambda: list(law_of_mass_action_rates([1.0, 2.0, 7.0], rs)))
+    v.prove("law_of_mass_action_rates", err is None and lr == [12.0], detail=err or repr(lr))
+    f, err = _attempt(lambda: list(dCdt_list(rs, [12.0])))
+    v.prove("dCdt_list", err is None and f == [12.0, -24.0, 0.0], detail=err or repr(f))
+    m, err = _attempt(lambda: [list(row) for row in rs.net_stoichs()])
+    v.prove("net_stoichs", err is None and m == [[1, -2, 0]], detail=err or repr(m))
+
+
+@harness("C03", "rate_expression_given_by_the_caller", functions=[CH + ":Reaction.rate", RS + ":ReactionSystem.rates", "chempy.kinetics.rates:MassAction.__call__", "chempy.kinetics.rates:MassAction.rate_coeff"], kind="data")
+def _(v):
+    """the arguments that replace or re-interpret the factor k*prod(c^nu): `ratex` / `ratexs` (a mass-action expression whose constant is a
+    number or is named in the variables) and `backend` (sympy, with genuine sympy symbols: 'symbolic variables' of the quantifier).
+    Hand values: 2 A -> B at A = 2 has prod = 4; B -> A at B = 1 has prod = 1."""
+    from chempy.chemistry import Reaction, Substance
+    from chempy.reactionsystem import ReactionSystem
+    from chempy.kinetics.rates import MassAction
+    rxn = Reaction({"A": 2}, {"B": 1}, 3.0)
+    r, err = _attempt(lambda: rxn.rate({"A": 2.0, "B": 1.0, "kk": 7.0}, ratex=MassAction.fk("kk")))
+    v.prove("ratex_with_a_named_constant", err is None and r == {"A": -2 * 7.0 * 4, "B": 7.0 * 4}, detail=err or repr(r))
+    rsys = ReactionSystem([rxn, Reaction({"B": 1}, {"A": 1}, 2.0)], [Substance(k) for k in "ABC"], checks=())
+    c = {"A": 2.0, "B": 1.0, "C": 0.0}
+    r, err = _attempt(lambda: rsys.rates(c, ratexs=[MassAction([5.0]), None]))
+    v.prove("ratexs_first_reaction_replaced", err is None and r == {"A": -2 * 5.0 * 4 + 2.0, "B": 5.0 * 4 - 2.0, "C": 0}, detail=err or repr(r))
+    r, err = _attempt(lambda: rsys.rates(c, ratexs=[None, MassAction([5.0])]))
+    v.prove("ratexs_second_reaction_replaced", err is None and r == {"A": -2 * 3.0 * 4 + 5.0, "B": 3.0 * 4 - 5.0, "C": 0}, detail=err or repr(r))
+    r, err = _attempt(lambda: rsys.rates(dict(c, kk=7.0), ratexs=[None, MassAction.fk("kk")]))
+    v.prove("ratexs_with_a_named_constant", err is None and r == {"A": -2 * 3.0 * 4 + 7.0, "B": 3.0 * 4 - 7.0, "C": 0}, detail=err or repr(r))
+    try:
+        import sympy
+    except ImportError:
+        return
+    A, B, C, k, k1, F, fA = sympy.symbols("A B C k k1 F fA")
+    zero = lambda d, want: set(d) == set(want) and all(sympy.expand(sympy.sympify(d[s]) - want[s]) == 0 for s in want)
+    r, err = _attempt(lambda: Reaction({"A": 2, "B": 1}, {"C": 1}, k).rate({"A": A, "B": B}, backend=sympy))
+    want = {"A": -2 * k * A ** 2 * B, "B": -k * A ** 2 * B, "C": k * A ** 2 * B}
+    v.prove("sympy_backend.reaction", err is None and zero(r, want), detail=err or repr(r))
+    ssys = ReactionSystem([Reaction({"A": 2, "B": 1}, {"C": 1}, k), Reaction({"C": 1}, {"A": 1, "B": 1}, k1, inact_reac={"B": 1})], [Substance(s) for s in "ABC"], checks=())
+    q1, q2 = k * A ** 2 * B, k1 * C                      # the inactive B of the second reaction is not in its product
+    want = {"A": -2 * q1 + q2, "B": -q1, "C": q1 - q2}   # B: -1 from reaction 1; +1 - 1 (inactive) = 0 from reaction 2
+    r, err = _attempt(lambda: ssys.rates({"A": A, "B": B, "C": C}, backend=sympy))
+    v.prove("sympy_backend.system", err is None and zero(r, want), detail=err or repr(r))
+    r, err = _attempt(lambda: ssys.rates({"A": A, "B": B, "C": C, "F": F, "fA": fA}, backend=sympy, cstr_fr_fc=("F", {"A": "fA"})))
+    v.prove("sympy_backend.system_with_feed", err is None and zero(r, dict(want, A=want["A"] + F * (fA - A))), detail=err or repr(r))
+
+
+@harness("C03", "ways_of_writing_the_reaction", functions=[CH + ":Reaction.__init__", CH + ":Reaction._init_stoich", CH + ":Reaction.from_string", CH + ":Reaction.rate"], kind="data")
+def _(v):
+    """the property is about the reaction however it was written down: sides given as sets (every coefficient 1), as OrderedDicts in
+    non-alphabetical order, or as text - where a repeated species ('A + A', '2 A + A') counts with its total coefficient
+    ('repeated species' of the quantifier)"""
+    from collections import OrderedDict
+    from chempy.chemistry import Reaction
+    r, err = _attempt(lambda: Reaction({"A", "B"}, {"C"}, 3.0).rate({"A": 2.0, "B": 5.0}))
+    v.prove("sides_given_as_sets", err is None and r == {"A": -30.0, "B": -30.0, "C": 30.0}, detail=err or repr(r))                 # 3 * 2 * 5
+    r, err = _attempt(lambda: Reaction(OrderedDict([("B", 1), ("A", 2)]), OrderedDict([("C", 1)]), 3.0).rate({"A": 2.0, "B": 5.0}))
+    v.prove("sides_given_as_ordered_dicts", err is None and r == {"A": -120.0, "B": -60.0, "C": 60.0}, detail=err or repr(r))      # 3 * 5 * 2**2 = 60
+    r, err = _attempt(lambda: Reaction.from_string("A + A -> B; 3").rate({"A": 2.0, "B": 0.0}))
+    v.prove("text_A_plus_A_is_2A", err is None and r == {"A": -24.0, "B": 12.0}, detail=err or repr(r))                              # 3 * 2**2 = 12
+    r, err = _attempt(lambda: Reaction.from_string("2 A + A -> B; 3").rate({"A": 2.0, "B": 0.0}))
+    v.prove("text_2A_plus_A_is_3A", err is None and r == {"A": -72.0, "B": 24.0}, detail=err or repr(r))                             # 3 * 2**3 = 24
+    r, err = _attempt(lambda: Reaction.from_string("A + B -> B + B + C; 3").rate({"A": 2.0, "B": 5.0, "C": 0.0}))
+    v.prove("text_repeated_product_and_catalyst", err is None and r == {"A": -30.0, "B": 30.0, "C": 30.0}, detail=err or repr(r))   # B: 2 - 1 = +1
